@@ -62,7 +62,41 @@ macro_rules! triples {
             format!("first and third stage (sc {:?} of {:?} scp {:?} ofp {:?} cl {:?} dl {}) second stage (sc {:?} of {:?} scp {:?} ofp {:?} cl {:?} dl {})", i1.sc, i1.of, i1.scp, i1.ofp, i1.cl, i1.dl, o1.sc, o1.of, o1.scp, o1.ofp, o1.cl, o1.dl));
     } )* };
 }
+thread_local! { static FEED: std::cell::RefCell<(Vec<F>, usize)> = std::cell::RefCell::new((Vec::new(), 0)); }
+fn feed_next() -> F { FEED.with(|f| { let mut f = f.borrow_mut(); let i = f.1; f.1 += 1; if i < f.0.len() { f.0[i] } else { gen_const() } }) }
+fn feed_reset(v: Vec<F>) { FEED.with(|f| *f.borrow_mut() = (v, 0)); }
+fn feed_pos() -> usize { FEED.with(|f| f.borrow().1) }
+
+/// ZERO-SIZED but varying operands: `signal::gen(f)` over a plain function (or a closure that captures nothing) which
+/// reads a thread-local feed. The adaptor's static type says nothing about whether the operand has state: the n-th
+/// output must use the operand's n-th frame and every `next` must pull it exactly once, whatever `size_of` the operand has.
+fn zst_operands(st: &mut Stream, rng: &mut Rng) {
+    let n = 3 + rng.usize_below(6);
+    let feed: Vec<F> = (0..n + 2).map(|_| gen_f(rng)).collect();
+    let left: Vec<F> = (0..n).map(|_| gen_f(rng)).collect();
+    let a = A::gen(rng, n);
+    let case = format!("typed {} zero-sized operand signal::gen(fn) fed {:?}; left operand {:?}", NAME, feed, left);
+    macro_rules! zst_case { ($what:expr, $build:expr, $refb:expr) => { {
+        feed_reset(feed.clone());
+        let got = run($build, n);
+        let pulled = feed_pos();
+        feed_reset(feed.clone());
+        let want = run($refb, n);
+        let pulled_ref = feed_pos();
+        st.count(&format!("typed_zero_sized_operand_{}", NAME));
+        if got == want && (got.is_none() || pulled == pulled_ref) { st.oracle_ok(n as u64); }
+        else { st.oracle_fail(&format!("{}: {} with a ZERO-SIZED right-hand operand (signal::gen over a plain fn reading a thread-local feed) differs from the same stack with the operand boxed, or the operand was pulled a different number of times (pulled {} times, boxed build {} times, {} outputs)", NAME, $what, pulled, pulled_ref, n), &case, &format!("{:?}", want), &format!("{:?}", got)); }
+    } } }
+    zst_case!("add_amp", signal::from_iter(left.clone()).add_amp(signal::gen(sg_feed)), signal::from_iter(left.clone()).add_amp(Dyn(Box::new(signal::gen(sg_feed)))));
+    zst_case!("mul_amp", signal::from_iter(left.clone()).mul_amp(signal::gen(fl_feed)), signal::from_iter(left.clone()).mul_amp(Dyn(Box::new(signal::gen(fl_feed)))));
+    zst_case!("zip_map", signal::from_iter(left.clone()).zip_map(signal::gen(feed_next), |x: F, y: F| comb(x, y)), signal::from_iter(left.clone()).zip_map(Dyn(Box::new(signal::gen(feed_next))), |x: F, y: F| comb(x, y)));
+    zst_case!("scale_amp over gen", signal::gen(feed_next).scale_amp(a.sc), Dyn(Box::new(signal::gen(feed_next))).scale_amp(a.sc));
+    zst_case!("delay over gen", signal::gen(feed_next).delay(a.dl), Dyn(Box::new(signal::gen(feed_next))).delay(a.dl));
+    zst_case!("map over gen", signal::gen(feed_next).map(|f: F| tweak(f, 1)), Dyn(Box::new(signal::gen(feed_next))).map(|f: F| tweak(f, 1)));
+}
+
 pub fn run_all(st: &mut Stream, rng: &mut Rng, rounds: usize) {
+    for _ in 0..rounds { zst_operands(st, rng); }
     for _ in 0..rounds {
         let len = rng.usize_below(7);
         let frames: Vec<F> = (0..len).map(|_| gen_f(rng)).collect();
